@@ -272,6 +272,22 @@ def observed_outputs(cl, frames, hid, exclude=()):
     return out
 
 
+def patch_frame_returns(em, inst, p, by_id):
+    """ret == frame: the return value is the triggering frame as a record - value_to_json(..).to_string(): compact JSON in
+    the record's own member order (serde_json is built with preserve_order here)"""
+    if p.get("ret") != "frame":
+        return
+    for e in em:
+        if e["topic"] == inst["name"] + (p.get("suffix") or ".out") and e["fid"] in by_id and not e["err"]:
+            t = by_id[e["fid"]]
+            rec = {"id": H.id_to_s(t["id"]), "topic": t["topic"], "context_id": H.id_to_s(t["ctx"])}
+            if t["hash"]:
+                rec["hash"] = t["hash"]
+            if t["meta"] is not None:
+                rec["meta"] = t["meta"]
+            e["content"] = json.dumps(rec, separators=(",", ":"), ensure_ascii=False).encode()
+
+
 # ---- handler scenarios -------------------------------------------------------------------------
 TRIG_TOPICS = ["trig", "side", "other", "t0", "t1", "t2", "h1.note", "h2.note"]
 
@@ -426,8 +442,10 @@ def run_handler_scenario(seed, n_events=14):
                 t.join()
             report["triggers"] += 300
             report["bursts_while_busy"] = report.get("bursts_while_busy", 0) + 1
-            cl.settle(0.8, 60)
-        cl.settle()
+            # the sleeping handler wakes up only after its nap: do not mistake the pause for the end
+            time.sleep(inst["prog"]["slow_ms"] / 1000 + 0.5)
+            cl.settle(1.5, 120)
+        cl.settle(0.6, 60)
         stored = cl.frames()
         eph = [f for f in fol.frames() if f["ttl"] == "ephemeral"]
         report["ephemeral_outputs_seen_by_follower"] = len(eph)
@@ -455,9 +473,23 @@ def run_handler_scenario(seed, n_events=14):
                 start = inst["registered"]
             else:
                 start = H.s_to_id(p["resume"])
-            delivered = [f for f in fr if f["ctx"] == inst["ctx"] and f["id"] > start]
-            em, seen = model_handler(dict(id=inst["id"], ctx=inst["ctx"], name=inst["name"]), p, delivered)
-            if p.get("ret") == "frame":
+            # resume tail = "from the moment of registration": the subscription is taken (since the fix for F14) BEFORE the
+            # .registered announcement is appended, so a frame appended by a concurrent writer in between is delivered too -
+            # every start point between the register frame and the announcement is a correct reading of the property
+            starts = [start]
+            if p["resume"] == "tail":
+                starts += [f["id"] for f in fr if inst["id"] <= f["id"] < inst["registered"]][::-1]
+            em, seen = None, None
+            for st_ in starts:
+                delivered = [f for f in fr if f["ctx"] == inst["ctx"] and f["id"] > st_]
+                em_, seen_ = model_handler(dict(id=inst["id"], ctx=inst["ctx"], name=inst["name"]), p, delivered)
+                patch_frame_returns(em_, inst, p, by_id)
+                if em is None:
+                    em, seen = em_, seen_
+                if em_ == obs:
+                    em, seen = em_, seen_
+                    break
+            if False and p.get("ret") == "frame":
                 # the return value is the triggering frame as a record: value_to_json(..).to_string() = compact JSON
                 for e in em:
                     if e["topic"] == inst["name"] + (p.get("suffix") or ".out") and e["fid"] in by_id and not e["err"]:
